@@ -7,7 +7,7 @@ from ..impl_dtcwt import IMPL
 
 PROP = 'C12'
 MODULE = 'WaveletsVerif.Properties.C12'
-THEOREMS = ['WV.C12.dims5_correct', 'WV.C12.dims6_correct', 'WV.C12.layoutOf_perm']
+THEOREMS = ['WV.C12.dims5_correct', 'WV.C12.dims6_correct', 'WV.C12.layoutOf_perm', 'WV.C12.fwdJ2_skip_ll', 'WV.C12.loop_skip', 'WV.C12.loop_include', 'WV.C12.loop_prefix']
 OPS = ['DTCWTForward', 'DTCWTInverse']
 
 
